@@ -1,10 +1,53 @@
 /-
-  TwProofs.C10 — property theorems (see DESIGN.md, section 6).
+  TwProofs.C10 — string literals are HTML-escaped on output; raw() is the exact opt-out.
 -/
-import TwModel
-import TwSpec
+import TwProofs.Lemmas.Escape
 
 namespace Tw.C10
 open Tw
+
+/-- the value of every string literal is its text with `<`, `>`, `&` replaced by entities and
+    nothing else changed (html.EscapeString followed by the restoration of the two quote entities) -/
+theorem literal_value_eq_esc3 (s : Bytes) : literalValue s = esc3 s := literalValue_eq_esc3 s
+
+/-- no raw '<' or '>' coming from the literal reaches the output -/
+theorem no_raw_angle (s : Bytes) : ∀ x ∈ literalValue s, x ≠ 60 ∧ x ≠ 62 := by
+  rw [literalValue_eq_esc3]; exact esc3_no_angle s
+
+/-- single and double quotes stay as written -/
+theorem quotes_as_written (s : Bytes) :
+    (literalValue s).count 34 = s.count 34 ∧ (literalValue s).count 39 = s.count 39 := by
+  rw [literalValue_eq_esc3]; exact esc3_quotes s
+
+/-- unescaping the value gives back the literal byte for byte -/
+theorem unescape_literal (s : Bytes) : htmlUnescape (literalValue s) = s := by
+  rw [literalValue_eq_esc3]; exact unescape_esc3 s
+
+/-- evaluating a string literal yields the escaped text -/
+theorem literal_evaluates_escaped (fuel : Nat) (c : Ctx) (env : Env) (t : Token) (s : Bytes) :
+    evalExpr (fuel + 1) c env (.str t s) = .ok (.str (esc3 s)) := by
+  simp [evalExpr, literalValue_eq_esc3]
+
+/-- `raw()` on a literal yields exactly its original text -/
+theorem raw_literal_exact (fuel : Nat) (c : Ctx) (env : Env) (t t2 : Token) (s : Bytes) :
+    evalExpr (fuel + 3) c env (.call t (.str t2 s) (b "raw") []) = .ok (.str s) := by
+  rw [show fuel + 3 = (fuel + 2) + 1 from rfl, evalExpr]
+  simp only [show fuel + 2 = (fuel + 1) + 1 from rfl, evalExpr, evalExprs]
+  have hcall : callBuiltin (.str (literalValue s)) (b "raw") [] = some (.ok (.str (htmlUnescape (literalValue s)))) := by
+    simp (config := { decide := true }) [callBuiltin, strBuiltin]
+  simp [Val.type, hasBuiltinTable, hcall, unescape_literal]
+
+/-- escaping is context free: the value of a concatenation of literals is the concatenation of the
+    escaped texts, printing a string prints its bytes, and an array prints its elements joined -/
+theorem concat_escaped (s t : Bytes) (line : Nat) :
+    strInfix (b "+") (literalValue s) (literalValue t) line = .ok (.str (esc3 (s ++ t))) := by
+  simp (config := { decide := true }) [strInfix, literalValue_eq_esc3, esc3_append]
+
+theorem print_string_exact (v : Bytes) : (Val.str v).toStr = v := by simp [Val.toStr]
+
+/-! non-vacuity -/
+
+example : literalValue (b "<b>&amp; \"q\" 'r' &#34;") = b "&lt;b&gt;&amp;amp; \"q\" 'r' &amp;#34;" := by decide
+example : htmlUnescape (literalValue (b "a<&>\"'&lt;&#39;é")) = b "a<&>\"'&lt;&#39;é" := by decide
 
 end Tw.C10
